@@ -581,19 +581,11 @@ def fresh_device_request(ctx, name="dev", kinds=("none", "str", "int", "device",
 def str_request_class(ctx, d, env, cpu_substring=False):
     """Semantic partition of string requests (forks in setup so that obligation names do not depend on the code's branch order)."""
     lo = M.LOWER(d.t)
-    c = lambda w: z3.Contains(lo, SV(w))
-    if cpu_substring and ctx.branch(z3.Contains(d.t, SV("cpu"))):
-        return "contains-cpu:exactly-cpu" if ctx.branch(lo == SV("cpu")) else "contains-cpu:not-exactly-cpu"
-    if ctx.branch(c("cuda")):
+    if ctx.branch(z3.Contains(lo, SV("cuda"))):
         return "contains-cuda"
-    if ctx.branch(c("gpu")):
-        if ctx.branch(lo == SV("gpu")):
-            return "gpu"
-        return "contains-gpu:not-exactly-gpu:" + ("cuda-available" if ctx.branch(env.cuda.t) else "mps-available" if ctx.branch(env.mps.t) else "no-accelerator")
-    if ctx.branch(lo == SV("mps")):
-        return "mps"
-    if ctx.branch(lo == SV("cpu")):
-        return "cpu"
+    for w in ("gpu", "mps", "cpu"):
+        if ctx.branch(lo == SV(w)):
+            return w
     return "other-string"
 
 
@@ -873,7 +865,7 @@ def init_setup(ctx, shapes=ALL_SHAPES):
         k1, v1, _ = fresh_item(ctx, "first", allow_device=False, allow_mapping=False)
         k2, v2, _ = fresh_item(ctx, "second", allow_device=False, allow_mapping=False)
         ctx.assume(k1.t != k2.t)
-        ctx.assume(z3.And(M.NPARTS(k1.t) <= 2, M.NPARTS(k2.t) <= 2))  # bound of this shape: at most 2 dotted components per key
+        ctx.assume(z3.And(M.NPARTS(k1.t) == 1, M.NPARTS(k2.t) == 1))  # bound of this shape: undotted keys (dotted keys: the one-item shape)
         items = [(k1, v1), (k2, v2)]
     elif shape == "not-a-mapping":
         arg = Leaf(ctx.fresh("arg", "int"))
@@ -1871,7 +1863,7 @@ ASSUMPTIONS = [
     "BOUND __exit__: the record holds no entry, one replace/insert entry at depth 1 or 2, or two depth-1 entries (keys, previous values and store arbitrary); "
     "the composition `with set({key: v})` = _assign then __exit__ is a lemma for flat and two-component keys",
     "BOUND path/key shape: dotted keys have <=3 components (set._assign: path length 1..3, each step proved through the contract of the shorter path); "
-    "set(): mapping form with 1 or 2 items (2 items: <=2 components, scalar values), keyword form with three representative names",
+    "set(): mapping form with 1 or 2 items (2 items: undotted keys, scalar values), keyword form with three representative names",
     "BOUND `new` of update(): shapes flat1, flat2, nested1, nested1+flat1, nested2, opaque-section, empty ('new-defaults': flat1, nested1, opaque-section) - "
     "key strings, values, the old dict and the defaults are arbitrary; update_defaults: one scalar item / one section with one item / {'device': request}; 0..2 earlier defaults; refresh: 0..3 defaults",
     "configuration values are opaque scalars (identity only) or nested mappings; scalar values are not containers (a str value behaves the same for get, shown by the bounded replay)",
